@@ -637,7 +637,7 @@ EVIDENCE = {"C15": {
     "components": {"real": ["all eight settings classes, Settings.save/load, read/write_settings_object_to_file, json, the stdlib text/buffered I/O stack",
                             "hvsrpy.process / preprocess for the 'equal processing result' clause"],
                    "stub": ["the raw storage device (SimFS, fault-injecting)"]},
-    "assumptions": ["constructor default arguments are reset to their import-time values before and after every run so runs are independent",
+    "assumptions": ["excluded: float32 scalars as azimuth attribute values (single precision before, double after a reload: results differ by 1e-8), a failed save destroying the previous file content (the property speaks of completed saves); open finding: InstrumentTransferFunction objects cannot be saved (known_findings.json)", "constructor default arguments are reset to their import-time values before and after every run so runs are independent",
                     "a quarter of the explicit constructs are followed by a second construct from the very same argument objects",
                     "instrument_transfer_function stays None (not JSON-serialisable)"],
 }}
